@@ -576,7 +576,7 @@ Proof.
     + match goal with |- context [c_send ?X ?p] => destruct (c_send X p) as [o [|]] end; cbn [fst].
       * apply invA_arm. eapply invA_set_obj; [exact Hi2|exact Hg1|exact I|left; reflexivity].
       * apply invA_finish, Hi2.
-    + apply invA_arm, invA_set_state, Hi2.
+    + apply invA_arm, invA_set_state. eapply invA_set_obj; [exact Hi2|exact Hg1|exact I|left; reflexivity].
   - destruct (cl_st s); cbn [fst]; try exact Hi; (sr_invA b; [apply invA_set_state, E|apply invA_finish, E]).
   - destruct (cl_st s); cbn [fst]; try (invA_raw; apply invA_cancel_loop, Hi);
       (sr_invA b; [apply invA_set_state, E|apply invA_finish, E]).
@@ -966,7 +966,7 @@ Proof.
     + K_send G; (split; cbn [fst snd]; [|rets]).
       * apply K_arm. eapply K_set_obj; [exact Hk2|exact Hg1|reflexivity|reflexivity].
       * apply K_finish, Hk2.
-    + split; cbn [fst snd]; [apply K_arm, K_set_state, Hk2|rets].
+    + split; cbn [fst snd]; [|rets]. apply K_arm, K_set_state. eapply K_set_obj; [exact Hk2|exact Hg1|reflexivity|reflexivity].
   - destruct (cl_st s); try (split; cbn [fst snd]; [exact Hk|rets]);
       (sr_K G; (split; cbn [fst snd]; [first [apply K_set_state|apply K_finish]; assumption|rets])).
   - destruct (cl_st s); try (split; cbn [fst snd]; [K_raw; apply K_cancel_loop, Hk|rets]);
